@@ -62,12 +62,25 @@ pub struct Applied {
     pub changed: bool,
 }
 
+/// One entry of the assignment trace: which region (index into the list of
+/// region names), column and region-relative offset a tamperable advice
+/// assignment went to. The position in the trace is the assignment index.
+#[derive(Clone, Copy, Debug, PartialEq, Eq, Hash)]
+pub struct TraceEntry {
+    pub region: u32,
+    pub column: u32,
+    pub offset: u32,
+}
+
 #[derive(Default)]
 struct State {
     plan: Vec<(u64, Fault, Mode)>,
     counter: u64,
     untamperable: u64,
     applied: Vec<Applied>,
+    tracing: bool,
+    region_names: Vec<String>,
+    trace: Vec<TraceEntry>,
 }
 
 thread_local! {
@@ -85,6 +98,40 @@ pub fn set_plan(plan: Vec<(u64, Fault, Mode)>) {
         *s.borrow_mut() = State {
             plan,
             ..State::default()
+        }
+    });
+}
+
+/// Switches the assignment trace of the current thread on or off (off after
+/// [`reset`] / [`set_plan`]); switching it on clears the previous trace.
+pub fn set_tracing(on: bool) {
+    STATE.with(|s| {
+        let mut s = s.borrow_mut();
+        s.tracing = on;
+        if on {
+            s.region_names.clear();
+            s.trace.clear();
+        }
+    });
+}
+
+/// (names of the regions entered while tracing, one entry per tamperable
+/// assignment in index order).
+pub fn take_trace() -> (Vec<String>, Vec<TraceEntry>) {
+    STATE.with(|s| {
+        let mut s = s.borrow_mut();
+        (std::mem::take(&mut s.region_names), std::mem::take(&mut s.trace))
+    })
+}
+
+/// Hook called by the single-pass layouter when the assignment pass of a
+/// region starts. The name closure is only evaluated while tracing.
+pub(crate) fn enter_region<NR: Into<String>>(name: &impl Fn() -> NR) {
+    STATE.with(|s| {
+        let mut s = s.borrow_mut();
+        if s.tracing {
+            let n: String = name().into();
+            s.region_names.push(n);
         }
     });
 }
@@ -167,6 +214,14 @@ pub(crate) fn tamper<F: Field, VR>(
         let mut s = s.borrow_mut();
         let idx = s.counter;
         s.counter += 1;
+        if s.tracing {
+            let region = s.region_names.len().saturating_sub(1) as u32;
+            s.trace.push(TraceEntry {
+                region,
+                column: column as u32,
+                offset: offset as u32,
+            });
+        }
         s.plan.iter().find(|(i, _, _)| *i == idx).map(|(i, f, m)| (*i, f.clone(), *m))
     });
     let Some((index, fault, mode)) = hit else {
